@@ -174,44 +174,20 @@ Section exact.
   Qed.
 End exact.
 
-(* ---------- the JSON type test, from the class ---------- *)
-Lemma compatible_model_ok jt tc : json_compatible jt (tc_class tc) = true -> model_ok jt tc = true.
-Proof.
-  unfold model_ok, json_compatible.
-  change (str "string") with jsonStringType. change (str "boolean") with jsonBooleanType.
-  change (str "integer") with jsonIntegerType. change (str "number") with jsonNumberType.
-  change (str "array") with jsonArrayType. change (str "object") with jsonObjectType.
-  destruct (bytes_eqb_spec jt jsonStringType) as [->|_].
-  { replace (bytes_eqb jsonStringType jsonBooleanType) with false by reflexivity.
-    replace (bytes_eqb jsonStringType jsonIntegerType) with false by reflexivity.
-    replace (bytes_eqb jsonStringType jsonNumberType) with false by reflexivity.
-    destruct tc as [et ? ? ?| | |]; cbn; try discriminate. reflexivity. }
-  destruct (bytes_eqb_spec jt jsonBooleanType) as [->|_].
-  { destruct tc as [et ? ? ?| | |]; cbn; try discriminate. destruct (et_json et); cbn; congruence. }
-  destruct (bytes_eqb_spec jt jsonIntegerType) as [->|_].
-  { destruct tc as [et ? ? ?| | |]; cbn; try discriminate. destruct (et_json et); cbn; congruence. }
-  destruct (bytes_eqb_spec jt jsonNumberType) as [->|_].
-  { destruct tc as [et ? ? ?| | |]; cbn; try discriminate. destruct (et_json et); cbn; congruence. }
-  destruct (bytes_eqb_spec jt jsonArrayType) as [->|_].
-  { destruct tc as [et ? ? ?| | |]; cbn; try discriminate; try reflexivity. destruct (et_json et); discriminate. }
-  destruct (bytes_eqb_spec jt jsonObjectType) as [->|_].
-  { destruct tc as [et ? ? ?| | |]; cbn; try discriminate; try reflexivity. destruct (et_json et); discriminate. }
-  discriminate.
-Qed.
-
 (* a parameter that parses, under a schema that declares a JSON type not at odds with the
    Ethereum type, gets past the closing check of processField *)
 Lemma finish_accepts t o d pr it q tc :
   parseABIParameterComponents (erase q) = Ok tc -> fp_type q = d_type d ->
   type_at_odds (Schema t o (Some d) pr it) = false ->
   declared_json_type (Schema t o (Some d) pr it) <> None ->
+  elements_declared (d_type d) it ->
   finish (Schema t o (Some d) pr it) q = Ok q.
 Proof.
-  intros P Ety Odds Decl. unfold finish. rewrite P. cbn [bind]. rewrite inputTypeValid_unfold.
-  unfold type_at_odds in Odds. cbn [s_details] in Odds.
-  destruct (declared_json_type (Schema t o (Some d) pr it)) as [jt|] eqn:D; [|congruence].
-  rewrite (declared_is_tested _ _ D). apply negb_false_iff in Odds.
-  rewrite <- Ety, (class_of_parsed q tc P) in Odds. rewrite (compatible_model_ok _ _ Odds). reflexivity.
+  intros P Ety Odds Decl DeclE. unfold finish. rewrite P. cbn [bind].
+  unfold type_at_odds in Odds. cbn [s_details s_items] in Odds. apply orb_false_iff in Odds as [O1 O2].
+  rewrite (json_ok_valid _ tc (d_type d) O1 Decl) by (rewrite <- Ety; apply class_of_parsed; exact P).
+  cbn [bind s_items].
+  rewrite (elements_accept_parsed q tc it P) by (rewrite Ety; assumption). reflexivity.
 Qed.
 
 (* ---------- induction along [members_of] ---------- *)
@@ -308,12 +284,12 @@ Theorem describes_process : forall s name ap,
 Proof.
   induction s as [s IH] using members_ind. intros name ap JD C D.
   inversion D as [? t o d props items comps L F [tc P]]; subst.
-  inversion JD as [? Decl JM]; subst.
+  inversion JD as [? Decl DeclE JM]; subst.
   rewrite processSchema_unfold.
   destruct (consistent_members _ _ _ _ _ C) as [MO EC]. rewrite EC.
   unfold members_ok in MO. apply andb_true_iff in MO as [PO AM].
   rewrite (build_fill PF _ comps PO L).
-  - cbn [bind]. apply (finish_accepts t o d props items _ tc P eq_refl); [|exact Decl].
+  - cbn [bind]. apply (finish_accepts t o d props items _ tc P eq_refl); [|exact Decl|exact (DeclE d eq_refl)].
     rewrite consistent_unfold in C. apply andb_true_iff in C as [C _]. apply andb_true_iff in C as [_ C].
     apply negb_true_iff in C. exact C.
   - rewrite Forall_forall in *. intros km HIn.
@@ -342,12 +318,20 @@ Proof.
   intros H. pose proof (finish_ok _ _ _ H) as ->. exact H.
 Qed.
 
+Lemma finish_top s ap :
+  finish s ap = Ok ap ->
+  (do tc <- parseABIParameterComponents (erase ap); do _ <- inputTypeValidForTypeComponent s tc; Ok ap) = Ok ap.
+Proof.
+  unfold finish. destruct (parseABIParameterComponents (erase ap)) as [tc| |]; cbn [bind]; try discriminate.
+  destruct (inputTypeValidForTypeComponent s tc) as [[]| |]; cbn [bind]; try discriminate. reflexivity.
+Qed.
+
 Lemma convert_is_process name s :
   convertFFIParam (mkPin name true (Some (Some s))) = processSchema name s.
 Proof.
   unfold convertFFIParam. cbn [pi_verdict pi_unm pi_name negb processField].
   destruct (processSchema name s) as [ap| |] eqn:E; cbn [bind]; try reflexivity.
-  exact (process_finish _ _ _ E).
+  exact (finish_top _ _ (process_finish _ _ _ E)).
 Qed.
 
 (* what an accepted parameter looks like, for every verdict and decoded value *)
